@@ -132,6 +132,12 @@ def check(case):
     if not ok:
         first_w = next((it[1] for it in t.items if it[0] == "W"), "none")
         res.v("C08.b", "C08.b:tiling:%s:%s" % (fam, first_w), "%s: %s" % (label, msg))
+    # (b') a stream ends silently at a message boundary (also one reached by skipping a reported tail): a message root that
+    # is announced when no byte is left, followed by "input depleted", is a problem that does not exist
+    if s["type"] == model.STREAM and len(t.items) >= 2 and t.items[-1][0] == "W" and t.items[-1][1] == "InputStreamBytesDepletedError" \
+            and t.items[-2][0] == "S" and t.items[-2][1] == "" and ok and st.get("last_root_at_end"):
+        res.v("C08.b", "C08.b:message-without-bytes:%s" % fam, "%s: the input is used up at a message boundary, yet the root of another %s is announced and "
+              "reported as depleted (events %d, %d)" % (label, t.items[-2][2], len(t.items) - 2, len(t.items) - 1))
     # (c) value-only faults: lenient reference walk
     if case["faults"] and all(r["kind"] == "value" and r["cls"] == "leaf" for r in case["faults"]):
         o = model.decode(s["type"], data, cc=s.get("cc"), enc=s.get("enc"), lenient=True)
